@@ -54,6 +54,7 @@ def kindOfBase (name : String) : Option Kind :=
   | "throttle" => some Kinds.C20.throttleKind
   | "throttlerace" => some Kinds.C20.throttleRaceKind
   | "throttlelate" => some Kinds.C20.throttleLateKind
+  | "debouncelate" => some Kinds.C20.debounceLateKind
   | "after" => some Kinds.Funcs.afterKind
   | "before" => some Kinds.Funcs.beforeKind
   | "once" => some Kinds.Funcs.onceKind
